@@ -2,8 +2,11 @@
 C09 — virtual easy samples behave exactly like materialised extreme scores.
 -/
 import SA.Theorems.C01
+import SA.Theorems.C02
+import SA.Proofs.Easy
 
 namespace SA
+open Spec
 
 /-- **C09 (matrices).** Declaring `k` easy positives and `m` easy negatives gives the same
 confusion matrix as materialising them as `k` copies of a score `Mp` and `m` copies of a score
@@ -33,5 +36,434 @@ theorem C09_side_neg (ec : Label) (Mp Mn t : ℚ) (h1 : Mp < t) (h2 : t < Mn) :
 
 /-- Non-vacuity: a threshold strictly inside the materialised range exists. -/
 example : ((-10 : ℚ) < 0 ∧ (0 : ℚ) < 10) := by norm_num
+
+/-! ## Thresholds
+
+`c09_easy` declares `k` easy positives and `m` easy negatives; `c09_mat` materialises them as `k`
+copies of `Mp` and `m` copies of `Mn`.  For each metric the sorted array of the materialised
+object is `L ++ arr ++ R` with `arr` the array of the easy-sample object, `|L| = c09_low`,
+`|R| = c09_high`, and the two index targets of `_invert_increasing_function` differ by `|L|`. -/
+
+/-- the object declaring `k` easy positives and `m` easy negatives -/
+def c09_easy (pos neg : List ℚ) (k m : ℕ) (cfg : Cfg) : Scores :=
+  Scores.make pos neg k m cfg false
+
+/-- the object in which they are materialised as `k` copies of `Mp` and `m` copies of `Mn` -/
+def c09_mat (pos neg : List ℚ) (k m : ℕ) (cfg : Cfg) (Mp Mn : ℚ) : Scores :=
+  Scores.make (pos ++ List.replicate k Mp) (neg ++ List.replicate m Mn) 0 0 cfg false
+
+/-- `Mp`, `Mn` lie beyond all scores of both classes, each on its own class's side
+(`score_class = pos`: positives above, negatives below; `neg`: the other way round).
+Weak inequalities suffice for the threshold clause. -/
+def c09_beyond (sc : Label) (pos neg : List ℚ) (Mp Mn : ℚ) : Prop :=
+  ∀ x ∈ pos ++ neg, match sc with
+    | .pos => Mn ≤ x ∧ x ≤ Mp
+    | .neg => Mp ≤ x ∧ x ≤ Mn
+
+/-- number of materialised samples below the scored block of the metric's array -/
+def c09_low (sc : Label) (metric : Metric) (k m : ℕ) : ℕ :=
+  match sc, metric with
+  | .pos, .tpr => 0 | .pos, .fnr => 0 | .pos, .tnr => m
+  | .pos, .fpr => m | .pos, .topr => m | .pos, .tonr => m
+  | .neg, .tpr => k | .neg, .fnr => k | .neg, .tnr => 0
+  | .neg, .fpr => 0 | .neg, .topr => k | .neg, .tonr => k
+
+/-- number of materialised samples above the scored block of the metric's array -/
+def c09_high (sc : Label) (metric : Metric) (k m : ℕ) : ℕ :=
+  match sc, metric with
+  | .pos, .tpr => k | .pos, .fnr => k | .pos, .tnr => 0
+  | .pos, .fpr => 0 | .pos, .topr => k | .pos, .tonr => k
+  | .neg, .tpr => 0 | .neg, .fnr => 0 | .neg, .tnr => m
+  | .neg, .fpr => m | .neg, .topr => m | .neg, .tonr => m
+
+/-- the table `c09_low` is "lowest achievable count" for an even number of flips and
+"easy samples of the metric's population minus that" for an odd number -/
+theorem c09_low_eq (E : Scores) (metric : Metric) :
+    ((c09_low E.cfg.scoreClass metric E.easyPos E.easyNeg : ℕ) : ℚ) =
+      if evenFlips E.cfg metric.increasing then (minNum E metric : ℚ)
+      else (denom E metric : ℚ) - ((E.metricArray metric).length : ℚ) - (minNum E metric : ℚ) := by
+  obtain ⟨pos, neg, ep, en, ⟨sc, ec⟩⟩ := E
+  cases metric <;> cases sc <;>
+    simp [c09_low, evenFlips, Metric.increasing, minNum, denom, Scores.metricArray, length_concat,
+      Scores.nbAllPos, Scores.nbAllNeg, Scores.nbAll, Scores.nbEasy, Scores.nbHard] <;> ring
+
+/-- population facts for an object without easy samples whose arrays have the lengths of the
+easy-sample object plus its easy counts -/
+theorem c09_pop (E Mt : Scores) (hep : Mt.easyPos = 0) (hen : Mt.easyNeg = 0)
+    (hpl : Mt.pos.length = E.pos.length + E.easyPos)
+    (hnl : Mt.neg.length = E.neg.length + E.easyNeg) (metric : Metric) :
+    minNum Mt metric = 0 ∧ denom Mt metric = (Mt.metricArray metric).length ∧
+    denom E metric = denom Mt metric ∧
+    minNum E metric + (E.metricArray metric).length ≤ denom E metric := by
+  cases metric <;>
+    simp only [minNum, denom, Scores.metricArray, length_concat, Scores.nbAllPos, Scores.nbAllNeg,
+      Scores.nbAll, Scores.nbEasy, Scores.nbHard] <;>
+    refine ⟨by trivial, by omega, by omega, by omega⟩
+
+/-- **Index-target relation** (stage 3): after clipping, the normalised targets of the two
+objects, expressed as index positions, differ by `c09_low`. -/
+theorem c09_target_rel (E Mt : Scores) (hcfg : Mt.cfg = E.cfg) (hep : Mt.easyPos = 0)
+    (hen : Mt.easyNeg = 0) (hpl : Mt.pos.length = E.pos.length + E.easyPos)
+    (hnl : Mt.neg.length = E.neg.length + E.easyNeg) (metric : Metric) (r : ℚ)
+    (hne : (E.metricArray metric).length ≠ 0) :
+    c09_rel (c09_low E.cfg.scoreClass metric E.easyPos E.easyNeg) (E.metricArray metric).length
+      (Mt.metricArray metric).length (normTarget E metric r) (normTarget Mt metric r) := by
+  obtain ⟨p1, p2, p3, p4⟩ := c09_pop E Mt hep hen hpl hnl metric
+  have hneM : (Mt.metricArray metric).length ≠ 0 := by omega
+  have hE := rescale_spec E metric r hne
+  have hM := rescale_spec Mt metric r hneM
+  have hd := denom_pos E metric hne
+  have hdM := denom_pos Mt metric hneM
+  unfold clipped at hE hM
+  rw [clipQ_mul _ _ _ _ hd, div_mul_cancel₀ _ (ne_of_gt hd), div_mul_cancel₀ _ (ne_of_gt hd),
+    maxNum_eq] at hE
+  rw [clipQ_mul _ _ _ _ hdM, div_mul_cancel₀ _ (ne_of_gt hdM), div_mul_cancel₀ _ (ne_of_gt hdM),
+    maxNum_eq, p1, ← p2, ← p3] at hM
+  push_cast at hE hM
+  simp only [zero_add] at hM
+  have q0 : (0 : ℚ) ≤ (minNum E metric : ℚ) := by positivity
+  have qn : (0 : ℚ) ≤ ((E.metricArray metric).length : ℚ) := by positivity
+  have qD : (minNum E metric : ℚ) + ((E.metricArray metric).length : ℚ) ≤ (denom E metric : ℚ) := by
+    exact_mod_cast p4
+  have hlow := c09_low_eq E metric
+  unfold c09_rel normTarget
+  rw [hcfg, hlow, ← p2, ← p3]
+  by_cases he : evenFlips E.cfg metric.increasing = true
+  · simp only [he, if_true]
+    rw [← hM, c09_clip_even _ _ _ _ q0 qn qD, hE]; ring
+  · simp only [he, if_false, Bool.false_eq_true]
+    rw [clip01_one_sub, clip01_one_sub, sub_mul, one_mul, ← hM, c09_clip_odd _ _ _ _ q0 qn qD, hE]
+    ring
+
+/-- **Block form** (stage 2): the sorted array of the materialised object is the array of the
+easy-sample object with `c09_low` extra samples below and `c09_high` extra samples above. -/
+theorem c09_block (pos neg : List ℚ) (k m : ℕ) (cfg : Cfg) (Mp Mn : ℚ)
+    (hB : c09_beyond cfg.scoreClass pos neg Mp Mn) (metric : Metric)
+    (hne : ((c09_easy pos neg k m cfg).metricArray metric).length ≠ 0) :
+    ∃ L R, (c09_mat pos neg k m cfg Mp Mn).metricArray metric =
+        L ++ (c09_easy pos neg k m cfg).metricArray metric ++ R ∧
+      L.length = c09_low cfg.scoreClass metric k m ∧
+      R.length = c09_high cfg.scoreClass metric k m := by
+  obtain ⟨sc, ec⟩ := cfg
+  have hlen : (pos ++ neg).length ≠ 0 := by
+    cases metric <;>
+      simp only [c09_easy, Scores.make, Scores.metricArray, length_concat, length_sortQ,
+        Bool.false_eq_true, if_false] at hne <;>
+      simp only [List.length_append] <;> omega
+  obtain ⟨x0, hx0⟩ := List.exists_mem_of_length_pos (Nat.pos_of_ne_zero hlen)
+  have hpos : ∀ x ∈ pos, x ∈ pos ++ neg := fun x hx => List.mem_append_left _ hx
+  have hneg : ∀ x ∈ neg, x ∈ pos ++ neg := fun x hx => List.mem_append_right _ hx
+  have hcat : ∀ x ∈ sortQ neg ++ sortQ pos, x ∈ pos ++ neg := by
+    intro x hx
+    rcases List.mem_append.mp hx with h | h
+    · exact hneg x ((sortQ_perm neg).mem_iff.mp h)
+    · exact hpos x ((sortQ_perm pos).mem_iff.mp h)
+  cases sc
+  · -- score_class = pos: positives above, negatives below
+    have hB' : ∀ x ∈ pos ++ neg, Mn ≤ x ∧ x ≤ Mp := hB
+    have hlh : Mn ≤ Mp := le_trans (hB' x0 hx0).1 (hB' x0 hx0).2
+    have hP : sortQ (pos ++ List.replicate k Mp) =
+        List.replicate 0 Mn ++ sortQ pos ++ List.replicate k Mp :=
+      c09_sort_rep _ pos 0 k Mn Mp (by simp) (fun x hx => (hB' x (hpos x hx)).1)
+        (fun x hx => (hB' x (hpos x hx)).2) hlh
+    have hN : sortQ (neg ++ List.replicate m Mn) =
+        List.replicate m Mn ++ sortQ neg ++ List.replicate 0 Mp :=
+      c09_sort_rep _ neg m 0 Mn Mp (by simpa using List.perm_append_comm)
+        (fun x hx => (hB' x (hneg x hx)).1) (fun x hx => (hB' x (hneg x hx)).2) hlh
+    have hC : sortQ (sortQ (neg ++ List.replicate m Mn) ++ sortQ (pos ++ List.replicate k Mp)) =
+        List.replicate m Mn ++ sortQ (sortQ neg ++ sortQ pos) ++ List.replicate k Mp := by
+      apply c09_sort_rep _ _ m k Mn Mp _ (fun x hx => (hB' x (hcat x hx)).1)
+        (fun x hx => (hB' x (hcat x hx)).2) hlh
+      rw [List.perm_iff_count]
+      intro a
+      simp only [List.count_append, (sortQ_perm _).count_eq]
+      omega
+    cases metric <;>
+      simp only [c09_mat, c09_easy, Scores.make, Scores.metricArray, Scores.concat,
+        Bool.false_eq_true, if_false, c09_low, c09_high]
+    · exact ⟨_, _, hP, by simp, by simp⟩
+    · exact ⟨_, _, hP, by simp, by simp⟩
+    · exact ⟨_, _, hN, by simp, by simp⟩
+    · exact ⟨_, _, hN, by simp, by simp⟩
+    · exact ⟨_, _, hC, by simp, by simp⟩
+    · exact ⟨_, _, hC, by simp, by simp⟩
+  · -- score_class = neg: positives below, negatives above
+    have hB' : ∀ x ∈ pos ++ neg, Mp ≤ x ∧ x ≤ Mn := hB
+    have hlh : Mp ≤ Mn := le_trans (hB' x0 hx0).1 (hB' x0 hx0).2
+    have hP : sortQ (pos ++ List.replicate k Mp) =
+        List.replicate k Mp ++ sortQ pos ++ List.replicate 0 Mn :=
+      c09_sort_rep _ pos k 0 Mp Mn (by simpa using List.perm_append_comm)
+        (fun x hx => (hB' x (hpos x hx)).1) (fun x hx => (hB' x (hpos x hx)).2) hlh
+    have hN : sortQ (neg ++ List.replicate m Mn) =
+        List.replicate 0 Mp ++ sortQ neg ++ List.replicate m Mn :=
+      c09_sort_rep _ neg 0 m Mp Mn (by simp) (fun x hx => (hB' x (hneg x hx)).1)
+        (fun x hx => (hB' x (hneg x hx)).2) hlh
+    have hC : sortQ (sortQ (neg ++ List.replicate m Mn) ++ sortQ (pos ++ List.replicate k Mp)) =
+        List.replicate k Mp ++ sortQ (sortQ neg ++ sortQ pos) ++ List.replicate m Mn := by
+      apply c09_sort_rep _ _ k m Mp Mn _ (fun x hx => (hB' x (hcat x hx)).1)
+        (fun x hx => (hB' x (hcat x hx)).2) hlh
+      rw [List.perm_iff_count]
+      intro a
+      simp only [List.count_append, (sortQ_perm _).count_eq]
+      omega
+    cases metric <;>
+      simp only [c09_mat, c09_easy, Scores.make, Scores.metricArray, Scores.concat,
+        Bool.false_eq_true, if_false, c09_low, c09_high]
+    · exact ⟨_, _, hP, by simp, by simp⟩
+    · exact ⟨_, _, hP, by simp, by simp⟩
+    · exact ⟨_, _, hN, by simp, by simp⟩
+    · exact ⟨_, _, hN, by simp, by simp⟩
+    · exact ⟨_, _, hC, by simp, by simp⟩
+    · exact ⟨_, _, hC, by simp, by simp⟩
+
+theorem c09_thresholdAt_linear (u : Ulp) (s : Scores) (metric : Metric) (r : ℚ)
+    (hne : (s.metricArray metric).length ≠ 0) :
+    s.thresholdAt u metric r .linear = .ok (invertIncreasing u (s.metricArray metric)
+      (normTarget s metric r) (normLc s.cfg metric.increasing metric.ratioClass) .linear) := by
+  rw [thresholdAt_eq u s metric r .linear hne]
+  have hm : (if evenFlips s.cfg metric.increasing then Method.linear else Method.linear.reverse)
+      = .linear := by split <;> rfl
+  rw [hm]
+
+/-- block form and index-target relation together -/
+theorem c09_setup (pos neg : List ℚ) (k m : ℕ) (cfg : Cfg) (Mp Mn : ℚ)
+    (hB : c09_beyond cfg.scoreClass pos neg Mp Mn) (metric : Metric) (r : ℚ)
+    (hne : ((c09_easy pos neg k m cfg).metricArray metric).length ≠ 0) :
+    ∃ L R, (c09_mat pos neg k m cfg Mp Mn).metricArray metric =
+        L ++ (c09_easy pos neg k m cfg).metricArray metric ++ R ∧
+      L.length = c09_low cfg.scoreClass metric k m ∧
+      R.length = c09_high cfg.scoreClass metric k m ∧
+      c09_rel L.length ((c09_easy pos neg k m cfg).metricArray metric).length
+        (L ++ (c09_easy pos neg k m cfg).metricArray metric ++ R).length
+        (normTarget (c09_easy pos neg k m cfg) metric r)
+        (normTarget (c09_mat pos neg k m cfg Mp Mn) metric r) := by
+  obtain ⟨L, R, hblk, hL, hR⟩ := c09_block pos neg k m cfg Mp Mn hB metric hne
+  refine ⟨L, R, hblk, hL, hR, ?_⟩
+  have hrel := c09_target_rel (c09_easy pos neg k m cfg) (c09_mat pos neg k m cfg Mp Mn) rfl rfl rfl
+    (by simp [c09_mat, c09_easy, Scores.make, length_sortQ])
+    (by simp [c09_mat, c09_easy, Scores.make, length_sortQ]) metric r hne
+  have hL' : c09_low (c09_easy pos neg k m cfg).cfg.scoreClass metric
+      (c09_easy pos neg k m cfg).easyPos (c09_easy pos neg k m cfg).easyNeg = L.length := hL.symm
+  rw [hL', hblk] at hrel
+  exact hrel
+
+/-- **C09 (thresholds).** For each of the six metrics, all four configurations and every target
+`r` (method `linear`): if the target is interior for the easy-sample object — neither special
+case of `_invert_increasing_function` fires (`h1`, `h0`) — and its index target is at most
+`n - 1` (`hx`; automatic for right-continuous metrics), then the object in which the `k + m`
+easy samples are materialised beyond all scores returns exactly the same threshold. -/
+theorem C09_threshold (u : Ulp) (pos neg : List ℚ) (k m : ℕ) (cfg : Cfg) (Mp Mn : ℚ)
+    (hB : c09_beyond cfg.scoreClass pos neg Mp Mn) (metric : Metric) (r : ℚ)
+    (hne : ((c09_easy pos neg k m cfg).metricArray metric).length ≠ 0)
+    (h1 : normTarget (c09_easy pos neg k m cfg) metric r < 1)
+    (h0 : 0 < (if normLc cfg metric.increasing metric.ratioClass
+      then normTarget (c09_easy pos neg k m cfg) metric r
+      else normTarget (c09_easy pos neg k m cfg) metric r -
+        1 / (((c09_easy pos neg k m cfg).metricArray metric).length : ℚ)))
+    (hx : indexTarget ((c09_easy pos neg k m cfg).metricArray metric)
+        (normTarget (c09_easy pos neg k m cfg) metric r)
+        (normLc cfg metric.increasing metric.ratioClass) ≤
+      (((c09_easy pos neg k m cfg).metricArray metric).length : ℚ) - 1) :
+    (c09_mat pos neg k m cfg Mp Mn).thresholdAt u metric r .linear =
+      (c09_easy pos neg k m cfg).thresholdAt u metric r .linear := by
+  obtain ⟨L, R, hblk, -, -, hrel⟩ := c09_setup pos neg k m cfg Mp Mn hB metric r hne
+  have hneM : ((c09_mat pos neg k m cfg Mp Mn).metricArray metric).length ≠ 0 := by
+    rw [hblk]; simp only [List.length_append]; omega
+  rw [c09_thresholdAt_linear u _ metric r hneM, c09_thresholdAt_linear u _ metric r hne, hblk]
+  congr 1
+  exact c09_invert_shift u L _ R hne _ _ _ hrel h1 h0 hx
+
+/-- **C09 (thresholds), property shape.** If the threshold `tM` returned by the materialised
+object lies strictly inside the range of the relevant scored samples, the easy-sample object
+returns the same threshold. -/
+theorem C09_threshold_inside (u : Ulp) (hu : u.Lawful) (pos neg : List ℚ) (k m : ℕ) (cfg : Cfg)
+    (Mp Mn : ℚ) (hB : c09_beyond cfg.scoreClass pos neg Mp Mn) (metric : Metric) (r tM : ℚ)
+    (hM : (c09_mat pos neg k m cfg Mp Mn).thresholdAt u metric r .linear = .ok tM)
+    (hlo : ((c09_easy pos neg k m cfg).metricArray metric).getD 0 0 < tM)
+    (hhi : tM < ((c09_easy pos neg k m cfg).metricArray metric).getD
+      (((c09_easy pos neg k m cfg).metricArray metric).length - 1) 0) :
+    (c09_easy pos neg k m cfg).thresholdAt u metric r .linear = .ok tM := by
+  have hne : ((c09_easy pos neg k m cfg).metricArray metric).length ≠ 0 := by
+    intro h
+    rw [h] at hhi
+    linarith
+  obtain ⟨L, R, hblk, -, -, hrel⟩ := c09_setup pos neg k m cfg Mp Mn hB metric r hne
+  have hneM : ((c09_mat pos neg k m cfg Mp Mn).metricArray metric).length ≠ 0 := by
+    rw [hblk]; simp only [List.length_append]; omega
+  have hs : ((c09_mat pos neg k m cfg Mp Mn).metricArray metric).Pairwise (· ≤ ·) :=
+    metricArray_sorted _ (sortQ_pairwise _) (sortQ_pairwise _) metric
+  rw [c09_thresholdAt_linear u _ metric r hneM] at hM
+  injection hM with hM
+  rw [hblk] at hM hs
+  rw [← hM] at hlo hhi
+  have := c09_invert_inside u hu L _ R hs _ _ _ hrel hlo hhi
+  rw [c09_thresholdAt_linear u _ metric r hne, ← hM]
+  congr 1
+  exact this.symm
+
+/-- **C09 (thresholds), low end point.** When the index target of the materialised object is
+exactly the position of the first scored sample (and at least one materialised sample lies below
+it), the materialised object returns that sample, whereas the easy-sample object returns the
+sentinel one ulp below it: this is why the two thresholds are only compared up to a few ulp at
+the end points of the scored range. -/
+theorem C09_threshold_boundary_low (u : Ulp) (pos neg : List ℚ) (k m : ℕ) (cfg : Cfg) (Mp Mn : ℚ)
+    (hB : c09_beyond cfg.scoreClass pos neg Mp Mn) (metric : Metric) (r : ℚ)
+    (hn2 : 2 ≤ ((c09_easy pos neg k m cfg).metricArray metric).length)
+    (hb : 0 < c09_low cfg.scoreClass metric k m)
+    (hx' : indexTarget ((c09_mat pos neg k m cfg Mp Mn).metricArray metric)
+        (normTarget (c09_mat pos neg k m cfg Mp Mn) metric r)
+        (normLc cfg metric.increasing metric.ratioClass) =
+      (c09_low cfg.scoreClass metric k m : ℚ)) :
+    (c09_mat pos neg k m cfg Mp Mn).thresholdAt u metric r .linear =
+      .ok (((c09_easy pos neg k m cfg).metricArray metric).getD 0 0) ∧
+    (c09_easy pos neg k m cfg).thresholdAt u metric r .linear =
+      .ok (u.down (((c09_easy pos neg k m cfg).metricArray metric).getD 0 0)) := by
+  have hne : ((c09_easy pos neg k m cfg).metricArray metric).length ≠ 0 := by omega
+  obtain ⟨L, R, hblk, hL, -, hrel⟩ := c09_setup pos neg k m cfg Mp Mn hB metric r hne
+  have hneM : ((c09_mat pos neg k m cfg Mp Mn).metricArray metric).length ≠ 0 := by
+    rw [hblk]; simp only [List.length_append]; omega
+  rw [c09_thresholdAt_linear u _ metric r hneM, c09_thresholdAt_linear u _ metric r hne, hblk]
+  rw [hblk, ← hL] at hx'
+  rw [← hL] at hb
+  obtain ⟨a, b⟩ := c09_boundary_low u L _ R hn2 hb _ _ _ hrel hx'
+  exact ⟨congrArg _ a, congrArg _ b⟩
+
+/-- **C09 (thresholds), high end point** (metrics handled right-continuously). When the index
+target of the materialised object is exactly the position of the last scored sample (and at least
+one materialised sample lies above it), the materialised object returns that sample, whereas the
+easy-sample object returns the sentinel one ulp above it. -/
+theorem C09_threshold_boundary_high (u : Ulp) (pos neg : List ℚ) (k m : ℕ) (cfg : Cfg)
+    (Mp Mn : ℚ) (hB : c09_beyond cfg.scoreClass pos neg Mp Mn) (metric : Metric) (r : ℚ)
+    (hn2 : 2 ≤ ((c09_easy pos neg k m cfg).metricArray metric).length)
+    (hc : 0 < c09_high cfg.scoreClass metric k m)
+    (hlc : normLc cfg metric.increasing metric.ratioClass = false)
+    (hx' : indexTarget ((c09_mat pos neg k m cfg Mp Mn).metricArray metric)
+        (normTarget (c09_mat pos neg k m cfg Mp Mn) metric r) false =
+      (c09_low cfg.scoreClass metric k m : ℚ) +
+        (((c09_easy pos neg k m cfg).metricArray metric).length : ℚ) - 1) :
+    (c09_mat pos neg k m cfg Mp Mn).thresholdAt u metric r .linear =
+      .ok (((c09_easy pos neg k m cfg).metricArray metric).getD
+        (((c09_easy pos neg k m cfg).metricArray metric).length - 1) 0) ∧
+    (c09_easy pos neg k m cfg).thresholdAt u metric r .linear =
+      .ok (u.up (((c09_easy pos neg k m cfg).metricArray metric).getD
+        (((c09_easy pos neg k m cfg).metricArray metric).length - 1) 0)) := by
+  have hne : ((c09_easy pos neg k m cfg).metricArray metric).length ≠ 0 := by omega
+  obtain ⟨L, R, hblk, hL, hR, hrel⟩ := c09_setup pos neg k m cfg Mp Mn hB metric r hne
+  have hneM : ((c09_mat pos neg k m cfg Mp Mn).metricArray metric).length ≠ 0 := by
+    rw [hblk]; simp only [List.length_append]; omega
+  have hcfg1 : (c09_mat pos neg k m cfg Mp Mn).cfg = cfg := rfl
+  have hcfg2 : (c09_easy pos neg k m cfg).cfg = cfg := rfl
+  rw [c09_thresholdAt_linear u _ metric r hneM, c09_thresholdAt_linear u _ metric r hne, hblk,
+    hcfg1, hcfg2, hlc]
+  rw [hblk, ← hL] at hx'
+  rw [← hR] at hc
+  obtain ⟨a, b⟩ := c09_boundary_high u L _ R hn2 hc _ _ hrel hx'
+  exact ⟨congrArg _ a, congrArg _ b⟩
+
+/-- the two end-point statements together -/
+theorem C09_threshold_boundary (u : Ulp) (pos neg : List ℚ) (k m : ℕ) (cfg : Cfg)
+    (Mp Mn : ℚ) (hB : c09_beyond cfg.scoreClass pos neg Mp Mn) (metric : Metric) (r : ℚ)
+    (hn2 : 2 ≤ ((c09_easy pos neg k m cfg).metricArray metric).length) :
+    (0 < c09_low cfg.scoreClass metric k m →
+      indexTarget ((c09_mat pos neg k m cfg Mp Mn).metricArray metric)
+        (normTarget (c09_mat pos neg k m cfg Mp Mn) metric r)
+        (normLc cfg metric.increasing metric.ratioClass) =
+      (c09_low cfg.scoreClass metric k m : ℚ) →
+      (c09_mat pos neg k m cfg Mp Mn).thresholdAt u metric r .linear =
+        .ok (((c09_easy pos neg k m cfg).metricArray metric).getD 0 0) ∧
+      (c09_easy pos neg k m cfg).thresholdAt u metric r .linear =
+        .ok (u.down (((c09_easy pos neg k m cfg).metricArray metric).getD 0 0))) ∧
+    (0 < c09_high cfg.scoreClass metric k m →
+      normLc cfg metric.increasing metric.ratioClass = false →
+      indexTarget ((c09_mat pos neg k m cfg Mp Mn).metricArray metric)
+        (normTarget (c09_mat pos neg k m cfg Mp Mn) metric r) false =
+      (c09_low cfg.scoreClass metric k m : ℚ) +
+        (((c09_easy pos neg k m cfg).metricArray metric).length : ℚ) - 1 →
+      (c09_mat pos neg k m cfg Mp Mn).thresholdAt u metric r .linear =
+        .ok (((c09_easy pos neg k m cfg).metricArray metric).getD
+          (((c09_easy pos neg k m cfg).metricArray metric).length - 1) 0) ∧
+      (c09_easy pos neg k m cfg).thresholdAt u metric r .linear =
+        .ok (u.up (((c09_easy pos neg k m cfg).metricArray metric).getD
+          (((c09_easy pos neg k m cfg).metricArray metric).length - 1) 0))) :=
+  ⟨fun hb hx' => C09_threshold_boundary_low u pos neg k m cfg Mp Mn hB metric r hn2 hb hx',
+   fun hc hlc hx' => C09_threshold_boundary_high u pos neg k m cfg Mp Mn hB metric r hn2 hc hlc hx'⟩
+
+/-- for sorted inputs the easy-sample object is the plain structure -/
+theorem c09_easy_of_sorted (pos neg : List ℚ) (k m : ℕ) (cfg : Cfg)
+    (hp : pos.Pairwise (· ≤ ·)) (hn : neg.Pairwise (· ≤ ·)) :
+    c09_easy pos neg k m cfg = ⟨pos, neg, k, m, cfg⟩ := by
+  simp only [c09_easy, Scores.make, Bool.false_eq_true, if_false, c09_sortQ_of_sorted pos hp,
+    c09_sortQ_of_sorted neg hn]
+
+/-! ### non-vacuity -/
+
+theorem c09_ex_beyond : c09_beyond Label.pos [1, 2, 3, 4] [0, 1] 10 (-10) := by
+  intro x hx
+  simp only [List.cons_append, List.nil_append, List.mem_cons, List.not_mem_nil, or_false] at hx
+  rcases hx with rfl | rfl | rfl | rfl | rfl | rfl <;> norm_num
+
+theorem c09_ex_easy (cfg : Cfg) :
+    c09_easy [1, 2, 3, 4] [0, 1] 2 1 cfg = ⟨[1, 2, 3, 4], [0, 1], 2, 1, cfg⟩ :=
+  c09_easy_of_sorted _ _ _ _ _ (by decide +kernel) (by decide +kernel)
+
+theorem c09_ex_mat (cfg : Cfg) :
+    c09_mat [1, 2, 3, 4] [0, 1] 2 1 cfg 10 (-10) =
+      ⟨[1, 2, 3, 4, 10, 10], [-10, 0, 1], 0, 0, cfg⟩ := by
+  have h1 : sortQ ([1, 2, 3, 4] ++ List.replicate 2 (10 : ℚ)) = [1, 2, 3, 4, 10, 10] :=
+    c09_sortQ_of_sorted _ (by decide +kernel)
+  have h2 : sortQ ([0, 1] ++ List.replicate 1 (-10 : ℚ)) = [-10, 0, 1] := by
+    show sortQ ([0, 1] ++ [-10]) = _
+    rw [sortQ_eq_of_perm _ ([-10] ++ [0, 1]) List.perm_append_comm]
+    exact c09_sortQ_of_sorted _ (by decide +kernel)
+  simp only [c09_mat, Scores.make, Bool.false_eq_true, if_false, h1, h2]
+
+/-- Non-vacuity of `C09_threshold` (FNR target 1/3, index target 2 of 0..3). -/
+example : c09_beyond (Cfg.mk .pos .pos).scoreClass [1, 2, 3, 4] [0, 1] 10 (-10) ∧
+    ((c09_easy [1, 2, 3, 4] [0, 1] 2 1 ⟨.pos, .pos⟩).metricArray .fnr).length ≠ 0 ∧
+    normTarget (c09_easy [1, 2, 3, 4] [0, 1] 2 1 ⟨.pos, .pos⟩) .fnr (1 / 3) < 1 ∧
+    0 < (if normLc ⟨.pos, .pos⟩ Metric.fnr.increasing Metric.fnr.ratioClass
+      then normTarget (c09_easy [1, 2, 3, 4] [0, 1] 2 1 ⟨.pos, .pos⟩) .fnr (1 / 3)
+      else normTarget (c09_easy [1, 2, 3, 4] [0, 1] 2 1 ⟨.pos, .pos⟩) .fnr (1 / 3) -
+        1 / (((c09_easy [1, 2, 3, 4] [0, 1] 2 1 ⟨.pos, .pos⟩).metricArray .fnr).length : ℚ)) ∧
+    indexTarget ((c09_easy [1, 2, 3, 4] [0, 1] 2 1 ⟨.pos, .pos⟩).metricArray .fnr)
+        (normTarget (c09_easy [1, 2, 3, 4] [0, 1] 2 1 ⟨.pos, .pos⟩) .fnr (1 / 3))
+        (normLc ⟨.pos, .pos⟩ Metric.fnr.increasing Metric.fnr.ratioClass) ≤
+      (((c09_easy [1, 2, 3, 4] [0, 1] 2 1 ⟨.pos, .pos⟩).metricArray .fnr).length : ℚ) - 1 := by
+  rw [c09_ex_easy]
+  exact ⟨c09_ex_beyond, by decide +kernel, by decide +kernel, by decide +kernel,
+    by decide +kernel⟩
+
+/-- Non-vacuity of `C09_threshold_inside`: the materialised threshold is 3, inside (1, 4). -/
+example : Ulp.half.Lawful ∧
+    (c09_mat [1, 2, 3, 4] [0, 1] 2 1 ⟨.pos, .pos⟩ 10 (-10)).thresholdAt Ulp.half .fnr (1 / 3)
+      .linear = .ok 3 ∧
+    ((c09_easy [1, 2, 3, 4] [0, 1] 2 1 ⟨.pos, .pos⟩).metricArray .fnr).getD 0 0 < 3 ∧
+    (3 : ℚ) < ((c09_easy [1, 2, 3, 4] [0, 1] 2 1 ⟨.pos, .pos⟩).metricArray .fnr).getD
+      (((c09_easy [1, 2, 3, 4] [0, 1] 2 1 ⟨.pos, .pos⟩).metricArray .fnr).length - 1) 0 := by
+  rw [c09_ex_easy, c09_ex_mat]
+  exact ⟨Ulp.half_lawful, by decide +kernel, by decide +kernel, by decide +kernel⟩
+
+/-- Non-vacuity of `C09_threshold_boundary_low` (TNR target 2/3: the materialised object returns
+the first scored negative `0`, the easy-sample object one ulp below). -/
+example : 2 ≤ ((c09_easy [1, 2, 3, 4] [0, 1] 2 1 ⟨.pos, .pos⟩).metricArray .tnr).length ∧
+    0 < c09_low (Cfg.mk .pos .pos).scoreClass .tnr 2 1 ∧
+    indexTarget ((c09_mat [1, 2, 3, 4] [0, 1] 2 1 ⟨.pos, .pos⟩ 10 (-10)).metricArray .tnr)
+        (normTarget (c09_mat [1, 2, 3, 4] [0, 1] 2 1 ⟨.pos, .pos⟩ 10 (-10)) .tnr (2 / 3))
+        (normLc ⟨.pos, .pos⟩ Metric.tnr.increasing Metric.tnr.ratioClass) =
+      (c09_low (Cfg.mk .pos .pos).scoreClass .tnr 2 1 : ℚ) := by
+  rw [c09_ex_easy, c09_ex_mat]
+  exact ⟨by decide +kernel, by decide +kernel, by decide +kernel⟩
+
+/-- Non-vacuity of `C09_threshold_boundary_high` (`equal_class = neg`, FNR target 2/3: the
+materialised object returns the last scored positive `4`, the easy-sample object one ulp above). -/
+example : 2 ≤ ((c09_easy [1, 2, 3, 4] [0, 1] 2 1 ⟨.pos, .neg⟩).metricArray .fnr).length ∧
+    0 < c09_high (Cfg.mk .pos .neg).scoreClass .fnr 2 1 ∧
+    normLc ⟨.pos, .neg⟩ Metric.fnr.increasing Metric.fnr.ratioClass = false ∧
+    indexTarget ((c09_mat [1, 2, 3, 4] [0, 1] 2 1 ⟨.pos, .neg⟩ 10 (-10)).metricArray .fnr)
+        (normTarget (c09_mat [1, 2, 3, 4] [0, 1] 2 1 ⟨.pos, .neg⟩ 10 (-10)) .fnr (2 / 3)) false =
+      (c09_low (Cfg.mk .pos .neg).scoreClass .fnr 2 1 : ℚ) +
+        (((c09_easy [1, 2, 3, 4] [0, 1] 2 1 ⟨.pos, .neg⟩).metricArray .fnr).length : ℚ) - 1 := by
+  rw [c09_ex_easy, c09_ex_mat]
+  exact ⟨by decide +kernel, by decide +kernel, by decide +kernel, by decide +kernel⟩
 
 end SA
